@@ -9,6 +9,10 @@ CLAIMED = {
             "standard theorems; they are not decided numerically."),
     "C03": ("SMT (z3 real arithmetic) over symbolic execution of the real Aggregate.build / coupling / "
             "transition_dipole / dipole_dipole_interaction code with symbolic molecular parameters", "4/C03", ""),
+    "C04": ("SMT (z3 nonlinear real arithmetic) over symbolic execution of the real eigenbasis_of enter/exit protocol, "
+            "lazy transformation properties and per-class transform() along bounded context programs; eigh as a "
+            "contract stub (spectral parametrisation, determinism, degeneracy case split); prove-then-replace "
+            "checkpoint simplification at context boundaries", "4/C04", ""),
     "C05": ("SMT (z3 real arithmetic) over symbolic execution of the unit-conversion functions and every "
             "units-managed accessor for all ordered unit pairs; bounded programs of nested contexts / library "
             "calls executed on the real Manager", "4/C05", ""),
@@ -41,5 +45,5 @@ CLAIMED = {
 }
 _NYB = "check not built yet in this round (design in DESIGN.md section 4); not claimed until its harness is sound"
 NOT_APPLICABLE = {p: _NYB for p in
-                  ["C%02d" % i for i in range(2, 20) if i not in (2, 3, 5, 7, 8, 13, 14, 16, 17, 19)]}
+                  ["C%02d" % i for i in range(2, 20) if i not in (2, 3, 4, 5, 7, 8, 13, 14, 16, 17, 19)]}
 SOURCE_COMMITS = []
